@@ -65,6 +65,12 @@ impl Qcow2IoTokio {
 
         assert!(res == buf.len());
 
+        // tokio's File::write() only hands the data to a background task;
+        // wait until the write has really been issued, so that its error is
+        // reported here and nothing that bypasses the File (hole punching
+        // goes straight to the fd) can overtake it
+        file.flush().await?;
+
         Ok(())
     }
 }
